@@ -1,6 +1,7 @@
 (* C01 — Clenshaw-Curtis as coded is exact on T_0..T_{n-1} for every n >= 2 *)
 From Coq Require Import Reals Arith Lia Lra Bool.
-From P Require Import C01_gen C01_model C01_proofs_sums C01_proofs_trig C01_proofs_fejer1.
+From Coquelicot Require Import Coquelicot.
+From P Require Import C01_gen C01_model C01_proofs_sums C01_proofs_trig C01_proofs_poly.
 Open Scope R_scope.
 
 Lemma halve_ends_sym N k : (k <= N)%nat ->
@@ -36,41 +37,6 @@ Qed.
 
 Lemma cc_sum_scal N c f : cc_sum N (fun k => c * f k) = c * cc_sum N f.
 Proof. unfold cc_sum. rewrite <- rsum_scal. apply rsum_ext. intros. ring. Qed.
-
-Lemma cc_D_0 N : cc_D N 0 = INR N.
-Proof. reflexivity. Qed.
-Lemma cc_D_2N N c : c = (2 * N)%nat -> cc_D N c = INR N.
-Proof. intros ->. unfold cc_D. rewrite Nat.eqb_refl, orb_true_r. reflexivity. Qed.
-Lemma cc_D_mid N c : (0 < c < 2 * N)%nat -> cc_D N c = 0.
-Proof.
-  intros H. unfold cc_D. destruct (Nat.eqb_spec c 0); [exfalso; lia|]. destruct (Nat.eqb_spec c (2 * N)); [exfalso; lia|]. reflexivity.
-Qed.
-
-Lemma cc_orth_val_le N a b : (1 <= N)%nat -> (1 <= a <= N)%nat -> (b <= a)%nat ->
-  cc_sum N (fun k => cos (INR a * eq_theta N k) * cos (INR b * eq_theta N k))
-  = if (a =? b)%nat then (if (a =? N)%nat then INR N else INR N / 2) else 0.
-Proof.
-  intros HN Ha H. rewrite cc_orth_le by lia.
-  destruct (Nat.eqb_spec a b) as [<-|Hne].
-  - rewrite Nat.sub_diag, cc_D_0.
-    destruct (Nat.eqb_spec a N) as [->|HaN].
-    + rewrite cc_D_2N by lia. lra.
-    + rewrite cc_D_mid by lia. lra.
-  - rewrite !cc_D_mid by lia. lra.
-Qed.
-
-Lemma cc_orth_val N a b : (1 <= N)%nat -> (1 <= a <= N)%nat -> (b <= N)%nat ->
-  cc_sum N (fun k => cos (INR a * eq_theta N k) * cos (INR b * eq_theta N k))
-  = if (a =? b)%nat then (if (a =? N)%nat then INR N else INR N / 2) else 0.
-Proof.
-  intros HN Ha Hb. destruct (Nat.le_ge_cases b a) as [H|H].
-  - apply cc_orth_val_le; assumption.
-  - rewrite (cc_sum_ext N _ (fun k => cos (INR b * eq_theta N k) * cos (INR a * eq_theta N k))) by (intros; ring).
-    destruct (Nat.eq_dec b 0) as [->|Hb0].
-    + assert (a = 0)%nat by lia. exfalso; lia.
-    + rewrite cc_orth_val_le by lia. rewrite (Nat.eqb_sym b a).
-      destruct (Nat.eqb_spec a b) as [->|]; reflexivity.
-Qed.
 
 (* the constructor's arrays in the natural (unreversed) order *)
 Lemma cc_theta_eq N k : (k <= N)%nat -> cc_theta (S N) k = eq_theta N (N - k).
@@ -141,3 +107,13 @@ Qed.
 
 Example cc_hyp_sat : (2 <= 7)%nat /\ (6 <= 7 - 1)%nat.
 Proof. lia. Qed.
+
+(* every polynomial of degree <= n-1 (pspan), and the monomials in particular *)
+Lemma cc_exact_poly_thm n f : (2 <= n)%nat -> pspan (n - 1) f ->
+  is_RInt f (-1) 1 (rsum n (fun k => wts_ClenshawCurtis n k * f (pts_ClenshawCurtis n k))).
+Proof. intros Hn Hf. apply (quad_exact_on_span n (n - 1)); [|exact Hf]. intros m Hm. apply cc_exact_lemma; assumption. Qed.
+
+Lemma cc_exact_monomial_thm n d : (2 <= n)%nat -> (d <= n - 1)%nat ->
+  rsum n (fun k => wts_ClenshawCurtis n k * pts_ClenshawCurtis n k ^ d) = mono_int d.
+Proof. intros Hn Hd. apply (quad_exact_monomial n (n - 1)); [|exact Hd]. intros m Hm. apply cc_exact_lemma; assumption. Qed.
+
